@@ -38,6 +38,7 @@ import (
 	"testing"
 	"time"
 
+	"github.com/btcsuite/btcd/address/v2"
 	"github.com/btcsuite/btcd/blockchain"
 	"github.com/btcsuite/btcd/btcutil/v2"
 	"github.com/btcsuite/btcd/btcutil/v2/gcs"
@@ -149,6 +150,7 @@ type vfCFWorld struct {
 	maxH    int   // highest model height
 	liePos  []int // real height of a lie at model height k (index k)
 	isLie   map[int]bool
+	big     map[int]bool             // real heights whose block carries the bulk transaction
 	params  map[int]*chaincfg.Params // by hard-coded checkpoint height (0 = none)
 	main    *vfCFChain
 	mainLoc map[chainhash.Hash]int
@@ -218,15 +220,147 @@ func vfCFScript(tag string, parts ...[]byte) []byte {
 	return append([]byte{0x00, 0x14}, h[:20]...)
 }
 
-// vfCFRealBlock builds a small real block (coinbase + one transaction with two
-// ordinary outputs, an unparsable output script and an OP_RETURN output) on
-// top of prev.
-func vfCFRealBlock(branch, r int, prev chainhash.Hash, ts int64) (*wire.MsgBlock, [][]byte) {
+// ---- input classes of the disputed blocks -----------------------------------
+//
+// BIP158: the basic filter of a block holds every output script (OP_RETURN
+// ones excepted) AND the script of every output its inputs spend.  The world
+// creates the spent outputs itself (they live in no block of the chain), so it
+// knows their scripts exactly; the TRUE filter is built from them.  An input
+// class is (signature script, witness, script of the output it spends).
+
+type vfCFIn struct {
+	class   string
+	sig     []byte
+	witness wire.TxWitness
+	prev    []byte // script of the spent output
+}
+
+func vfCFPush(d []byte) []byte {
+	switch {
+	case len(d) <= 75:
+		return append([]byte{byte(len(d))}, d...)
+	case len(d) <= 255:
+		return append([]byte{0x4c, byte(len(d))}, d...)
+	}
+	return append([]byte{0x4d, byte(len(d)), byte(len(d) >> 8)}, d...)
+}
+
+func vfCFBytes(n int, tag string, parts ...[]byte) []byte {
+	out := make([]byte, 0, n+32)
+	for i := 0; len(out) < n; i++ {
+		h := vfCFSha(tag, append(parts, vfCFU32(i))...)
+		out = append(out, h[:]...)
+	}
+	return out[:n]
+}
+
+func vfCFCat(parts ...[]byte) []byte {
+	var out []byte
+	for _, p := range parts {
+		out = append(out, p...)
+	}
+	return out
+}
+
+func vfCFSha256(d []byte) []byte { h := sha256.Sum256(d); return h[:] }
+
+func vfCFP2SH(redeem []byte) []byte {
+	return vfCFCat([]byte{0xa9, 0x14}, address.Hash160(redeem), []byte{0x87})
+}
+
+// vfCFInputClasses returns one input of every class, derived from id.
+func vfCFInputClasses(id []byte) []vfCFIn {
+	pub := func(t string) []byte { return append([]byte{0x02}, vfCFBytes(32, "pub"+t, id)...) }
+	sig := func(t string) []byte { // DER-shaped signature + SIGHASH_ALL, 71 bytes
+		return vfCFCat([]byte{0x30, 0x44, 0x02, 0x20}, vfCFBytes(32, "r"+t, id),
+			[]byte{0x02, 0x20}, vfCFBytes(32, "s"+t, id), []byte{0x01})
+	}
+	tr := func(t string) []byte { return append([]byte{0x51, 0x20}, vfCFBytes(32, "tr"+t, id)...) }
+	ctrl := func(t string, depth int) []byte {
+		return vfCFCat([]byte{0xc0}, vfCFBytes(32, "ik"+t, id), vfCFBytes(32*depth, "path"+t, id))
+	}
+	annex := append([]byte{0x50}, vfCFBytes(9, "annex", id)...)
+	multisig := func(t string) []byte { return vfCFCat([]byte{0x51, 0x21}, pub(t), []byte{0x51, 0xae}) }
+	leaf := func(t string) []byte { return vfCFCat([]byte{0x20}, vfCFBytes(32, "xonly"+t, id), []byte{0xac}) }
+	// a 33-byte witness script: OP_DROP <31 bytes>
+	ws33 := vfCFCat([]byte{0x75, 0x1f}, vfCFBytes(31, "ws33", id))
+
+	wpkh := vfCFCat([]byte{0x00, 0x14}, address.Hash160(pub("d")))
+	wsE, wsG := multisig("e"), multisig("g")
+	wshE := vfCFCat([]byte{0x00, 0x20}, vfCFSha256(wsE))
+	return []vfCFIn{
+		{class: "p2pk", sig: vfCFPush(sig("a")), prev: vfCFCat(vfCFPush(pub("a")), []byte{0xac})},
+		{class: "p2pkh", sig: vfCFCat(vfCFPush(sig("b")), vfCFPush(pub("b"))),
+			prev: vfCFCat([]byte{0x76, 0xa9, 0x14}, address.Hash160(pub("b")), []byte{0x88, 0xac})},
+		{class: "p2sh", sig: vfCFCat([]byte{0x00}, vfCFPush(sig("c")), vfCFPush(multisig("c"))),
+			prev: vfCFP2SH(multisig("c"))},
+		{class: "np2wpkh", sig: vfCFPush(wpkh), witness: wire.TxWitness{sig("d"), pub("d")},
+			prev: vfCFP2SH(wpkh)},
+		{class: "np2wsh", sig: vfCFPush(wshE), witness: wire.TxWitness{nil, sig("e"), wsE},
+			prev: vfCFP2SH(wshE)},
+		{class: "p2wpkh", witness: wire.TxWitness{sig("f"), pub("f")},
+			prev: vfCFCat([]byte{0x00, 0x14}, address.Hash160(pub("f")))},
+		{class: "p2wsh", witness: wire.TxWitness{nil, sig("g"), wsG},
+			prev: vfCFCat([]byte{0x00, 0x20}, vfCFSha256(wsG))},
+		// a P2WSH spend whose witness has two items, the last 33 bytes long
+		{class: "p2wsh33", witness: wire.TxWitness{sig("h"), ws33},
+			prev: vfCFCat([]byte{0x00, 0x20}, vfCFSha256(ws33))},
+		// taproot key path: one signature of 64 bytes / 65 bytes (explicit
+		// sighash type) / followed by an annex
+		{class: "p2tr-key64", witness: wire.TxWitness{vfCFBytes(64, "schnorr-i", id)}, prev: tr("i")},
+		{class: "p2tr-key65", witness: wire.TxWitness{append(vfCFBytes(64, "schnorr-j", id), 0x83)}, prev: tr("j")},
+		{class: "p2tr-key-annex", witness: wire.TxWitness{vfCFBytes(64, "schnorr-k", id), annex}, prev: tr("k")},
+		// taproot script path: ... script, control block [, annex]
+		{class: "p2tr-script", witness: wire.TxWitness{vfCFBytes(64, "schnorr-l", id), leaf("l"), ctrl("l", 1)}, prev: tr("l")},
+		{class: "p2tr-script-depth0", witness: wire.TxWitness{[]byte{0x51}, ctrl("m", 0)}, prev: tr("m")},
+		{class: "p2tr-script-annex", witness: wire.TxWitness{vfCFBytes(64, "schnorr-n", id), leaf("n"), ctrl("n", 2), annex}, prev: tr("n")},
+		// neither a signature script nor a witness (anyone-can-spend output)
+		{class: "bare-empty", prev: []byte{0x51}},
+		// an output of a witness version that has no rules yet
+		{class: "witness-v2", witness: wire.TxWitness{vfCFBytes(40, "v2", id)},
+			prev: append([]byte{0x52, 0x20}, vfCFBytes(32, "v2prog", id)...)},
+		// bare multisig, and a non-standard pair whose signature script is not push-only
+		{class: "bare-multisig", sig: vfCFCat([]byte{0x00}, vfCFPush(sig("s"))), prev: multisig("s")},
+		{class: "nonstd", sig: []byte{0x51, 0x76}, prev: []byte{0x87, byte(id[7])}},
+	}
+}
+
+// vfCFOmitSpent: index in the list of spent scripts of the one the "OI" liars
+// leave out of their filter (tx 1 has one input; class 6 of tx 2 is "p2wsh").
+const vfCFOmitSpent = 1 + 6
+
+func vfCFSpend(tx *wire.MsgTx, prevs *[][]byte, tag string, id []byte, n int, in vfCFIn) {
+	h := vfCFSha("in-"+tag, id, vfCFU32(n))
+	tx.AddTxIn(&wire.TxIn{
+		PreviousOutPoint: *wire.NewOutPoint(&h, uint32(n%3)),
+		SignatureScript:  in.sig,
+		Witness:          in.witness,
+		Sequence:         wire.MaxTxInSequenceNum,
+	})
+	*prevs = append(*prevs, in.prev)
+}
+
+// vfCFBigShape says whether the disputed block at a lie of model height k also
+// carries the bulk transaction (more than 253 inputs and outputs: the counts
+// need the 3-byte varint form; repeated and re-used scripts).
+func vfCFBigShape(k int) bool { return k%2 == 1 }
+
+// vfCFRealBlock builds a real block on top of prev: coinbase; tx 1 with one
+// input, two ordinary outputs, an unparsable output script and an OP_RETURN
+// output (the liars' filters omit output 0 / output 2 of it); tx 2 with one
+// input of EVERY input class, outputs of every standard kind, a repeated
+// script and a script that is also being spent (address re-use); tx 3 with
+// OP_RETURN outputs only; with big: tx 4 with 260 inputs and 300 outputs.
+// Returned with it: the scripts of all outputs spent by the block, in input
+// order.
+func vfCFRealBlock(branch, r int, prev chainhash.Hash, ts int64, big bool) (*wire.MsgBlock, [][]byte) {
 	id := append(vfCFU32(branch), vfCFU32(r)...)
+	var prevs [][]byte
 	cb := wire.NewMsgTx(2)
 	cb.AddTxIn(&wire.TxIn{
 		PreviousOutPoint: *wire.NewOutPoint(&chainhash.Hash{}, wire.MaxPrevOutIndex),
 		SignatureScript:  append([]byte{0x04}, vfCFU32(r)...),
+		Witness:          wire.TxWitness{make([]byte, 32)}, // the witness reserved value
 		Sequence:         wire.MaxTxInSequenceNum,
 	})
 	cb.AddTxOut(wire.NewTxOut(50_0000_0000, vfCFScript("cb", id)))
@@ -237,29 +371,83 @@ func vfCFRealBlock(branch, r int, prev chainhash.Hash, ts int64) (*wire.MsgBlock
 		SignatureScript:  []byte{0x01, 0x51},
 		Sequence:         wire.MaxTxInSequenceNum,
 	})
+	prevs = append(prevs, vfCFScript("spent", id))
+	o1 := vfCFScript("o1", id)
 	tx.AddTxOut(wire.NewTxOut(1000, vfCFScript("o0", id)))
-	tx.AddTxOut(wire.NewTxOut(2000, vfCFScript("o1", id)))
+	tx.AddTxOut(wire.NewTxOut(2000, o1))
 	// a script that does not parse (PUSHDATA1 announcing more bytes than
 	// follow): BIP158 filters contain it like any other output script ...
 	tx.AddTxOut(wire.NewTxOut(3000, []byte{0x4c, 0x05, byte(r), byte(branch)}))
 	// ... and an OP_RETURN output, which they leave out
 	tx.AddTxOut(wire.NewTxOut(0, append([]byte{0x6a, 0x08}, id...)))
-	h0, h1 := cb.TxHash(), tx.TxHash()
-	var buf [64]byte
-	copy(buf[:32], h0[:])
-	copy(buf[32:], h1[:])
+
+	tx2 := wire.NewMsgTx(2)
+	classes := vfCFInputClasses(id)
+	for n, in := range classes {
+		vfCFSpend(tx2, &prevs, "cls", id, n, in)
+	}
+	tx2.AddTxOut(wire.NewTxOut(100, append([]byte{0x51, 0x20}, vfCFBytes(32, "out-tr", id)...)))
+	tx2.AddTxOut(wire.NewTxOut(200, vfCFCat([]byte{0x00, 0x20}, vfCFBytes(32, "out-wsh", id))))
+	tx2.AddTxOut(wire.NewTxOut(300, vfCFCat([]byte{0x76, 0xa9, 0x14}, vfCFBytes(20, "out-pkh", id), []byte{0x88, 0xac})))
+	tx2.AddTxOut(wire.NewTxOut(400, vfCFCat([]byte{0xa9, 0x14}, vfCFBytes(20, "out-sh", id), []byte{0x87})))
+	tx2.AddTxOut(wire.NewTxOut(500, o1))              // the same script twice in a block
+	tx2.AddTxOut(wire.NewTxOut(600, o1))              // ... and three times
+	tx2.AddTxOut(wire.NewTxOut(700, classes[5].prev)) // paid to a script that the block also spends
+	tx2.AddTxOut(wire.NewTxOut(800, nil))             // empty script: not part of a filter
+	tx2.AddTxOut(wire.NewTxOut(0, []byte{0x6a}))      // OP_RETURN without data
+
+	tx3 := wire.NewMsgTx(2)
+	vfCFSpend(tx3, &prevs, "opr", id, 0, classes[8])
+	for n := 0; n < 3; n++ {
+		tx3.AddTxOut(wire.NewTxOut(0, vfCFCat([]byte{0x6a}, vfCFPush(vfCFBytes(20+30*n, "opret", id, vfCFU32(n))))))
+	}
+
+	txs := []*wire.MsgTx{cb, tx, tx2, tx3}
+	if big {
+		tx4 := wire.NewMsgTx(2)
+		for n := 0; n < 260; n++ {
+			in := classes[5+n%9] // the witness spends
+			if n >= 18 {
+				// fresh scripts (the first 18 re-use those of tx 2: the same
+				// script spent twice in one block)
+				in = vfCFInputClasses(vfCFCat(id, vfCFU32(n)))[5+n%9]
+			}
+			vfCFSpend(tx4, &prevs, "bulk", id, n, in)
+		}
+		for n := 0; n < 300; n++ {
+			m := n
+			if n%10 == 9 {
+				m = n - 1 // every tenth output repeats its neighbour's script
+			}
+			var s []byte
+			switch m % 3 {
+			case 0:
+				s = vfCFScript("bulk", id, vfCFU32(m))
+			case 1:
+				s = append([]byte{0x51, 0x20}, vfCFBytes(32, "bulk-tr", id, vfCFU32(m))...)
+			default:
+				s = vfCFCat([]byte{0x00, 0x20}, vfCFBytes(32, "bulk-wsh", id, vfCFU32(m)))
+			}
+			tx4.AddTxOut(wire.NewTxOut(int64(1000+n), s))
+		}
+		txs = append(txs, tx4)
+	}
+	utxs := make([]*btcutil.Tx, len(txs))
+	for i, t := range txs {
+		utxs[i] = btcutil.NewTx(t)
+	}
 	blk := &wire.MsgBlock{
 		Header: wire.BlockHeader{
 			Version:    4,
 			PrevBlock:  prev,
-			MerkleRoot: chainhash.DoubleHashH(buf[:]),
+			MerkleRoot: blockchain.CalcMerkleRoot(utxs, false),
 			Timestamp:  time.Unix(ts, 0),
 			Bits:       0x207fffff,
 		},
-		Transactions: []*wire.MsgTx{cb, tx},
+		Transactions: txs,
 	}
 	vfCFMine(&blk.Header)
-	return blk, [][]byte{vfCFScript("spent", id)}
+	return blk, prevs
 }
 
 // extend appends real heights tip+1..to to the chain, mined by branch.
@@ -270,7 +458,7 @@ func (w *vfCFWorld) extend(c *vfCFChain, branch, to int) {
 		var hdr *wire.BlockHeader
 		var fh chainhash.Hash
 		if w.isLie[r] {
-			blk, prevs := vfCFRealBlock(branch, r, prev, ts)
+			blk, prevs := vfCFRealBlock(branch, r, prev, ts, w.big[r])
 			hdr = &blk.Header
 			c.blk[r] = blk
 			c.prevs[r] = prevs
@@ -329,7 +517,7 @@ func vfCFBaseParams(net uint32) *chaincfg.Params {
 }
 
 func vfCFNewWorld(seed int64, maxH int, scratch string) (*vfCFWorld, error) {
-	w := &vfCFWorld{seed: seed, maxH: maxH, isLie: map[int]bool{}, scratch: scratch,
+	w := &vfCFWorld{seed: seed, maxH: maxH, isLie: map[int]bool{}, big: map[int]bool{}, scratch: scratch,
 		params: map[int]*chaincfg.Params{}, tmpl: map[string]string{},
 		mainLoc: map[chainhash.Hash]int{}, now: time.Now().Unix()}
 	x := uint64(seed)*6364136223846793005 + 1442695040888963407
@@ -346,6 +534,7 @@ func vfCFNewWorld(seed int64, maxH int, scratch string) (*vfCFWorld, error) {
 			w.liePos[k] = w.R(k-1) + 1 + next(w.e)
 		}
 		w.isLie[w.liePos[k]] = true
+		w.big[w.liePos[k]] = vfCFBigShape(k)
 	}
 	base := vfCFBaseParams(0xC0F50000)
 	gen := base.GenesisBlock
@@ -513,9 +702,9 @@ type vfCFEnv struct {
 	curTip int        // real height of the block store tip
 	nre    int
 	chains []*vfCFChain
-	loc    map[chainhash.Hash]vfCFLoc // blocks of branches (main chain: w.mainLoc)
-	fake   map[string]chainhash.Hash     // fake filter hash of peer p for a block
-	lin    map[string][]chainhash.Hash   // peer p's filter-header chain on a chain
+	loc    map[chainhash.Hash]vfCFLoc  // blocks of branches (main chain: w.mainLoc)
+	fake   map[string]chainhash.Hash   // fake filter hash of peer p for a block
+	lin    map[string][]chainhash.Hash // peer p's filter-header chain on a chain
 
 	// handler thread
 	ev      chan vfCFEvent
@@ -546,7 +735,7 @@ func (e *vfCFEnv) kind(p int) string { return e.asg[p-1].Kind }
 
 func (e *vfCFEnv) liesCF(p int) bool {
 	switch e.kind(p) {
-	case "OM", "OU", "NH", "NS", "EX", "HC":
+	case "OM", "OU", "OE", "NH", "NS", "EX", "OI", "HC":
 		return true
 	}
 	return false
@@ -554,7 +743,7 @@ func (e *vfCFEnv) liesCF(p int) bool {
 
 func (e *vfCFEnv) liesCP(p int) bool {
 	switch e.kind(p) {
-	case "CP", "CX", "PV", "OM", "OU", "NH", "NS", "EX":
+	case "CP", "CX", "PV", "OM", "OU", "OE", "NH", "NS", "EX", "OI":
 		return true
 	}
 	return false
@@ -581,7 +770,9 @@ func (e *vfCFEnv) locate(h chainhash.Hash) (*vfCFChain, int, bool) {
 
 // filterFor builds the GCS filter of the given kind for a real block.
 // kind: "true", "om" (omits an ordinary output script), "ou" (omits the
-// output script that does not parse), "ex" (extra element).
+// output script that does not parse), "ex" (extra element), "oi" (omits the
+// script of the P2WSH output that tx 2 spends - a spent script that
+// VerifyBasicBlockFilter can derive from the witness), "oe" (the empty filter).
 func (e *vfCFEnv) filterFor(c *vfCFChain, r int, kind string, p int) *gcs.Filter {
 	blk := c.blk[r]
 	if blk == nil {
@@ -589,6 +780,14 @@ func (e *vfCFEnv) filterFor(c *vfCFChain, r int, kind string, p int) *gcs.Filter
 	}
 	if kind == "true" {
 		f, err := builder.BuildBasicFilter(blk, c.prevs[r])
+		if err != nil {
+			panic(err)
+		}
+		return f
+	}
+	if kind == "oe" {
+		// the empty filter as a peer would send it: N = 0, no data
+		f, err := gcs.FromNBytes(builder.DefaultP, builder.DefaultM, []byte{0x00})
 		if err != nil {
 			panic(err)
 		}
@@ -608,6 +807,9 @@ func (e *vfCFEnv) filterFor(c *vfCFChain, r int, kind string, p int) *gcs.Filter
 		}
 	}
 	for _, s := range c.prevs[r] {
+		if kind == "oi" && bytes.Equal(s, c.prevs[r][vfCFOmitSpent]) {
+			continue // the omitted spent script (wherever the block spends it)
+		}
 		b.AddEntry(s)
 	}
 	b.AddEntry(vfCFScript("marker", vfCFU32(p)))
@@ -642,6 +844,18 @@ func (e *vfCFEnv) fakeHash(c *vfCFChain, p int) chainhash.Hash {
 		h = fh
 	case "EX":
 		fh, err := builder.GetFilterHash(e.filterFor(c, r, "ex", p))
+		if err != nil {
+			panic(err)
+		}
+		h = fh
+	case "OI":
+		fh, err := builder.GetFilterHash(e.filterFor(c, r, "oi", p))
+		if err != nil {
+			panic(err)
+		}
+		h = fh
+	case "OE":
+		fh, err := builder.GetFilterHash(e.filterFor(c, r, "oe", p))
 		if err != nil {
 			panic(err)
 		}
@@ -766,6 +980,10 @@ func (e *vfCFEnv) respFilter(p int, q *wire.MsgGetCFilters) wire.Message {
 			kind = "om"
 		case "EX":
 			kind = "ex"
+		case "OI":
+			kind = "oi"
+		case "OE":
+			kind = "oe"
 		case "NS":
 			return nil
 		}
@@ -1642,6 +1860,9 @@ func (e *vfCFEnv) autoRun(out *vfCFPathOut) {
 		case "r_flt", "u_flt":
 			a := mk(strings.ToUpper(e.pc[:1]) + "Flt")
 			a.Rs = e.mustAnswer("flt")
+			if q, ok := e.gate.msg.(*wire.MsgGetCFilters); ok {
+				a.N = e.w.modelCeil(int(q.StartHeight)) // the disputed height, as in the model's label
+			}
 			cands = []vfCFAct{a}
 		case "r_blk", "u_blk":
 			a := mk(strings.ToUpper(e.pc[:1]) + "Blk")
